@@ -96,6 +96,10 @@ func wireDriver(raw json.RawMessage, prop string) *Out {
 		return &Out{Skip: "bad case: " + err.Error()}
 	}
 	out := &Out{}
+	wireAnyCur = wireAnyJSON
+	if !c.AnyC {
+		wireAnyCur = wireAnyJSONText
+	}
 	srcs := []string{"j5s", "raw"}
 	if c.Src != "" {
 		srcs = []string{c.Src}
